@@ -82,6 +82,20 @@ TEXT.update({
         design_ref='6.13', level_note=CONV_NOTE),
 })
 
+TEXT.update({
+    'C17': dict(
+        technique='deductive verification (Verus) of the escaping theorem over a specification of systemd\'s ExecStart parsing + verified executable twins run exhaustively on the real escape_one_char / build_service_text',
+        level_text=('Two parts. (1) Proof, unbounded in pattern length and position: for EVERY escaper that satisfies the per-character condition char_ok, every non-empty NUL-free pattern, embedded at a word start '
+                    'and followed by whitespace or end of line, is read back by systemd\'s documented rules (word splitting, quote handling, C-style unescaping, lone-semicolon rule, %% and $$ expansion) as exactly one '
+                    'word that expands to the pattern, code point for code point (theorem_pattern, by induction with token-locality and un-doubling lemmas). (2) Link to the code by complete enumeration: the verified '
+                    'executable char_ok_exec (ensures r == char_ok) is evaluated on the real escape_one_char for all 1,112,063 Unicode scalar values; additionally the verified words_exec / arg_of_exec decode the '
+                    'ExecStart line of the real build_service_text for every single-scalar pattern (exhaustive), all pairs and triples over the syntax-relevant characters and seeded random lists, checking the fixed '
+                    'arguments, `--exclude p` per pattern and `--dev-file /%I`. The check is semantic: any other correct escaping passes.'),
+        design_ref='6.17',
+        level_note=('Trusted: Verus/Z3/rustc; the systemd specification in spec/sd.rs; the four functions of udev_utils.rs are compiled verbatim, not verified (str iterators and format! are outside Verus); the concatenation behaviour of '
+                    'systemd_arg_escape / build_exclude_text / build_service_text is assumed and exercised, not proved. The enumeration part is reported as enumerative (exhaustive for single characters), never as discharged obligations.')),
+})
+
 NOT_APPLICABLE = {
     'C15': 'both sides are serde / serde_json (derive(Serialize), serde_json::Value, enum_utils FromStr): no contract within reach of Verus or Kani can express or decide it without assuming the behaviour of the libraries, i.e. the property (DESIGN 6.15)',
     'C16': 'keyboard_listing.rs is str splitting/searching iterators, /proc and /sys I/O and an external glob crate; Verus does not reason about str contents and Kani does not terminate on symbolic text (DESIGN 6.16)',
